@@ -214,11 +214,50 @@ def _size(sc):
     return n
 
 
+def optimise_arm(prop, tier, seed):
+    """Run the first K runs of this check again in a child interpreter under PYTHONOPTIMIZE=1 (asserts stripped). The child
+    is a complete check (minimisation, replay verification) writing into a scratch directory; a violation found there is
+    copied here as a replay file that records the environment it needs."""
+    import shutil
+    import tempfile
+    k = 1500 if tier == "quick" else 12000
+    scratch = tempfile.mkdtemp(prefix="verif-O-", dir="/var/tmp")
+    t0 = time.time()
+    try:
+        env = dict(os.environ, PYTHONOPTIMIZE="1", VERIF_NO_ARMS="1", VERIF_OUT=scratch, VERIF_SEED=str(seed), PYTHONHASHSEED="0",
+                   VERIF_NO_REEXEC="1")
+        cp = subprocess.run([sys.executable, os.path.join(core.VERIF, "check"), prop, "--tier", tier, "--runs", str(k)],
+                            capture_output=True, text=True, env=env, timeout=3000)
+        log = cp.stdout + cp.stderr
+        vio = [ln for ln in log.splitlines() if ln.startswith("VIOLATION ")]
+        if cp.returncode == 1 and vio:
+            src = vio[0].split("replay=")[1].strip()
+            dst = replay_path(prop, seed, "O")
+            with open(src) as f:
+                doc = json.load(f)
+            doc["needs_env"] = {"PYTHONOPTIMIZE": "1"}
+            doc["replay_cmd"] = f"PYTHONOPTIMIZE=1 ./check {prop} --replay {dst}"
+            with open(dst, "w") as f:
+                json.dump(doc, f, indent=1, sort_keys=True, default=core._default)
+            keep = [ln for ln in log.splitlines() if ln.startswith(("minimised", "  detail", "violating runs"))]
+            return {"violation_replay": dst, "log": "  (found with assertions disabled: PYTHONOPTIMIZE=1)\n" + "\n".join(keep)}
+        if cp.returncode != 0:
+            return {"harness_error": log[-800:]}
+        return {"evidence": {"runs": k, "flags": "PYTHONOPTIMIZE=1 (python -O)", "violations": 0, "wall_s": round(time.time() - t0, 2)}}
+    finally:
+        shutil.rmtree(scratch, ignore_errors=True)
+
+
 def do_replay(prop, path):
     """Re-execute scenario_min; exit status semantics as for a check."""
     mod = load_prop(prop)
     with open(path) as f:
         doc = json.load(f)
+    need = doc.get("needs_env") or {}
+    if any(os.environ.get(k_) != v_ for k_, v_ in need.items()):
+        # the recording was made under interpreter flags (e.g. asserts stripped): replay in such an interpreter
+        env = dict(os.environ, **need)
+        return subprocess.run([sys.executable, os.path.join(core.VERIF, "check"), prop, "--replay", path], env=env).returncode
     with core.alarm(RUN_TIMEOUT):
         out = core.run_one(mod, doc["scenario_min"], keep_trace=True)
     v, want = out["violation"], doc["violation"]
@@ -332,7 +371,21 @@ def run_check(prop, tier, seed, runs=None, budget=None, workers=None, start=0, q
     for v in total["violations"]:
         if v[3] in known_tags:
             known_hits[v[3]] = known_hits.get(v[3], 0) + 1
-    if not unlisted and hasattr(mod, "post_batch"):
+    no_arms = bool(os.environ.get("VERIF_NO_ARMS"))
+    if not unlisted and not no_arms:
+        # interpreter-flags arm: the first runs again in a fresh interpreter with assertions disabled (python -O /
+        # PYTHONOPTIMIZE=1) - a deployment switch that must not change what the package does
+        arm = optimise_arm(prop, tier, seed)
+        if arm.get("violation_replay"):
+            write_evidence(prop, mod, tier, seed, batch, 1, known_hits, extra)
+            print(arm["log"])
+            print(f"VIOLATION property={prop} replay={arm['violation_replay']}")
+            return 1
+        if arm.get("harness_error"):
+            print(f"HARNESS-ERROR property={prop}: -O arm: {arm['harness_error']}")
+            return 2
+        extra["interpreter_flags_arm"] = arm["evidence"]
+    if not unlisted and hasattr(mod, "post_batch") and not no_arms:
         # secondary arm (e.g. the real multiprocessing.Pool): only consulted when the simulated batch is clean
         post = mod.post_batch(tier, seed)
         if post.get("violation"):
